@@ -830,7 +830,7 @@ pub fn eval_case2(prop: &str, case: &Case, obs: &mut Obs) -> Vec<Violation> {
         ("C17", Case::Hist { h, .. }) => {
             obs.nontrivial(h.hash());
             obs.sample(h.brief());
-            let mut out = mon::c17::check_sinks_and_moves(h, "/verif/.target/tmp", obs);
+            let mut out = mon::c17::check_sinks_and_moves(h, &format!("{}/tmp", crate::util::target_dir()), obs);
             out.extend(mon::c17::check_paths(h, obs));
             let d = mon::c17::reference(h).digest();
             *obs.counters.entry("digest_xor".into()).or_insert(0) ^= d;
